@@ -43,3 +43,25 @@ Proof.
   assert (E : inject_Z L + c + inject_Z 1 - N * M / R == c - (N * M / R - inject_Z L - inject_Z 1)) by ring.
   rewrite E. exact Hr.
 Qed.
+
+(* what N, R, L and the centre mask are bound to where the formulas are evaluated: the shape entries, the seeded
+   (centre fraction, acceleration) choice, the requested ACS size, the freshly built centre disc *)
+From Coq Require Import String.
+Local Open Scope string_scope.
+Lemma random_bindings_pinned : random_bindings =
+  ["num_cols = shape[-2]"; "center_fraction, acceleration = self.choose_acceleration()";
+   "num_low_freqs = int(round(num_cols * center_fraction))"; "num_low_freqs = int(center_fraction)"].
+Proof. reflexivity. Qed.
+Lemma equi_bindings_pinned : equi_bindings =
+  ["num_cols = shape[-2]"; "center_fraction, acceleration = self.choose_acceleration()";
+   "num_low_freqs = int(round(num_cols * center_fraction))"; "num_low_freqs = int(center_fraction)"].
+Proof. reflexivity. Qed.
+Lemma g1d_bindings_pinned : g1d_bindings =
+  ["num_cols = shape[-2]"; "center_fraction, acceleration = self.choose_acceleration()";
+   "num_low_freqs = int(round(num_cols * center_fraction))"].
+Proof. reflexivity. Qed.
+Lemma g2d_bindings_pinned : g2d_bindings =
+  ["num_rows, num_cols = shape[-3:-1]"; "center_fraction, acceleration = self.choose_acceleration()";
+   "mask = centered_disk_mask((num_rows, num_cols), center_fraction)";
+   "mask = mask[np.newaxis].repeat(num_slc_or_time, axis=0)"; "mask = mask.squeeze()"].
+Proof. reflexivity. Qed.
